@@ -34,7 +34,7 @@ class C10(scen.WorldProp):
                   "keep-going never enters a wait loop. correspondence: closed-loop bands (punctual, lagging, erratic, "
                   "early), all calls at random instants, assignment churn, tower-size changes between and during "
                   "touches, both modes; oracle: no exception leaves the main loop or a handler, rows keep completing, "
-                  "a keep-going Wheatley keeps its pace with silent humans. non-trivial = a fault (size change / "
+                  "a keep-going Wheatley keeps its pace with silent humans. server-mode instances spawned with --look-to-time before any row generator has arrived (theorems holder_*: with the place holder Wheatley stays in rounds, NullRowGenError unreachable). non-trivial = a fault (size change / "
                   "churn / call) hit a running touch")
 
     def spawn_case(self, rng):
